@@ -39,6 +39,7 @@ import (
 	"path/filepath"
 	"strconv"
 	"strings"
+	"sync"
 	"testing"
 	"time"
 	"unicode/utf8"
@@ -971,5 +972,123 @@ func TestVerif_C30_HTTP(t *testing.T) {
 	rapid.Check(t, func(rt *rapid.T) {
 		c := c30GenCase(rt)
 		c30Check(rt, rec, env, c)
+	})
+}
+
+// ---------------------------------------------------------------- concurrent responses
+
+// TestVerif_C30_Concurrent: several clients query the same node at the same
+// time, each with its own parameter values; every answer must contain exactly
+// the asking client's values (same oracle as the sequential unit: the JSON
+// cell must denote the value the parameter denotes). Blob parameters are left
+// out here because their read-back from expressions is an open known finding.
+func TestVerif_C30_Concurrent(t *testing.T) {
+	rec := vstat.New(t, "C30", "concurrent",
+		"rapid: 4-16 concurrent clients, each sending 15-40 POST /db/query (or /db/request) requests to one http.Service + single-node store; a request echoes the client's own 2-5 parameter values (int64 incl. extremes, floats, text incl. non-ASCII, null, booleans; distinct per client) on 50-600 rows of a recursive CTE, array or associative form; every answer must carry exactly the sender's values on every row; non-trivial = at least 4 clients and 200 answers; distinct by the clients' bodies")
+	env, err := c30NewEnv()
+	if err != nil {
+		t.Skipf("infrastructure: %v", err)
+	}
+	defer env.close()
+	rapid.Check(t, func(rt *rapid.T) {
+		nw := rapid.IntRange(4, 16).Draw(rt, "workers")
+		iters := rapid.IntRange(15, 40).Draw(rt, "iters")
+		type worker struct {
+			vals   []c30Val
+			rows   int
+			assoc  bool
+			path   string
+			body   string
+			names  []string
+			expect []any
+		}
+		ws := make([]*worker, nw)
+		canon := ""
+		for i := range ws {
+			w := &worker{rows: rapid.SampledFrom([]int{50, 200, 600}).Draw(rt, "rows"), assoc: rapid.Bool().Draw(rt, "assoc")}
+			np := rapid.IntRange(2, 5).Draw(rt, "np")
+			for len(w.vals) < np {
+				v := c30GenVal(rt, "cv")
+				if v.Kind == "hexlit" || v.Kind == "bytes" {
+					continue
+				}
+				w.vals = append(w.vals, v)
+			}
+			// a value that identifies the client
+			w.vals = append(w.vals, c30Val{Kind: "text", S: fmt.Sprintf("client-%d-é", i), JSON: c30JSONString(fmt.Sprintf("client-%d-é", i), false)})
+			exprs := []string{"x AS x"}
+			w.names = []string{"x"}
+			parts := []string{}
+			for j, v := range w.vals {
+				exprs = append(exprs, fmt.Sprintf("? AS p%d", j))
+				w.names = append(w.names, fmt.Sprintf("p%d", j))
+				parts = append(parts, v.JSON)
+				w.expect = append(w.expect, v.arg())
+			}
+			q := fmt.Sprintf("WITH RECURSIVE n(x) AS (SELECT 1 UNION ALL SELECT x+1 FROM n WHERE x<%d) SELECT %s FROM n", w.rows, strings.Join(exprs, ", "))
+			w.body = "[[" + c30JSONString(q, false) + "," + strings.Join(parts, ",") + "]]"
+			w.path = "/db/" + rapid.SampledFrom([]string{"query", "query", "request"}).Draw(rt, "ep") + "?x"
+			if w.assoc {
+				w.path += "&associative"
+			}
+			ws[i] = w
+			canon += w.path + w.body + ";"
+		}
+		rec.Case(nw >= 4 && nw*iters >= 200, canon)
+		rec.Sample(fmt.Sprintf("%d clients x %d requests", nw, iters))
+		rec.LabelN("answers", nw*iters)
+
+		var mu sync.Mutex
+		var first *c30Failure
+		var wg sync.WaitGroup
+		for i, w := range ws {
+			wg.Add(1)
+			go func(i int, w *worker) {
+				defer wg.Done()
+				for it := 0; it < iters; it++ {
+					mu.Lock()
+					stop := first != nil
+					mu.Unlock()
+					if stop {
+						return
+					}
+					code, body := env.post(w.path, w.body)
+					var f *c30Failure
+					if code != http.StatusOK {
+						f = &c30Failure{"C30/concurrent-answer-corrupt", fmt.Sprintf("client %d request %d: HTTP %d %.200s", i, it, code, body)}
+					} else if tb, msg := c30Decode(body, w.assoc, w.names); msg != "" {
+						f = &c30Failure{"C30/concurrent-answer-corrupt", fmt.Sprintf("client %d request %d: %s", i, it, msg)}
+					} else if len(tb.rows) != w.rows {
+						f = &c30Failure{"C30/concurrent-answer-corrupt", fmt.Sprintf("client %d request %d: %d rows, want %d", i, it, len(tb.rows), w.rows)}
+					} else {
+					rows:
+						for r, row := range tb.rows {
+							if _, d := c30CellDiff(int64(r+1), row[0], false); d != "" {
+								f = &c30Failure{"C30/concurrent-answer-foreign-values", fmt.Sprintf("client %d request %d row %d column x: %s", i, it, r, d)}
+								break
+							}
+							for j, want := range w.expect {
+								if _, d := c30CellDiff(want, row[j+1], false); d != "" {
+									f = &c30Failure{"C30/concurrent-answer-foreign-values", fmt.Sprintf("client %d request %d row %d column p%d: %s", i, it, r, j, d)}
+									break rows
+								}
+							}
+						}
+					}
+					if f != nil {
+						mu.Lock()
+						if first == nil {
+							first = f
+						}
+						mu.Unlock()
+						return
+					}
+				}
+			}(i, w)
+		}
+		wg.Wait()
+		if first != nil {
+			rt.Fatalf("%s", rec.Violation(first.sig, "%s", first.msg))
+		}
 	})
 }
